@@ -10,7 +10,7 @@ import WowSrp.Gen.Constants
 import WowSrp.Gen.Facts
 namespace WowSrp
 
-def expected_glueVanilla : List (List String) := [["fnencrypt(&mutself,data:&mut[u8]) {encrypt(data,self.session_key,&mutself.index,&mutself.previous_value,);}", "fnwrite_encrypted_server_header<W:Write>(&mutself,mutwrite:W,size:u16,opcode:u16,)->std::io::Result<()> {letbuf=self.encrypt_server_header(size,opcode);write.write_all(&buf)?;Ok(())}", "fnwrite_encrypted_client_header<W:Write>(&mutself,mutwrite:W,size:u16,opcode:u32,)->std::io::Result<()> {letbuf=self.encrypt_client_header(size,opcode);write.write_all(&buf)?;Ok(())}", "fnis_pair_of(&self,other:&DecrypterHalf)->bool {self.session_key==other.session_key}", "fnunsplit(self,decrypter:DecrypterHalf)->Result<HeaderCrypto,UnsplitCryptoError> {if!self.is_pair_of(&decrypter){returnErr(UnsplitCryptoError{});}Ok(HeaderCrypto{decrypt:decrypter,encrypt:self,})}", "fndecrypt(&mutself,data:&mut[u8]) {decrypt(data,&self.session_key,&mutself.index,&mutself.previous_value,);}", "fnread_and_decrypt_server_header<R:Read>(&mutself,mutreader:R,)->std::io::Result<ServerHeader> {letmutbuf=[0_u8;SERVER_HEADER_LENGTHasusize];reader.read_exact(&mutbuf)?;Ok(self.decrypt_server_header(buf))}", "fnread_and_decrypt_client_header<R:Read>(&mutself,mutreader:R,)->std::io::Result<ClientHeader> {letmutbuf=[0_u8;CLIENT_HEADER_LENGTHasusize];reader.read_exact(&mutbuf)?;Ok(self.decrypt_client_header(buf))}", "fnis_pair_of(&self,other:&EncrypterHalf)->bool {other.is_pair_of(self)}"]]
+def expected_glueVanilla : List (List String) := [["fnencrypt(&mutself,data:&mut[u8]) {encrypt(data,self.session_key,&mutself.index,&mutself.previous_value,);}", "fnwrite_encrypted_server_header<W:Write>(&mutself,mutwrite:W,size:u16,opcode:u16,)->std::io::Result<()> {letbuf=self.encrypt_server_header(size,opcode);write.write_all(&buf)?;Ok(())}", "fnwrite_encrypted_client_header<W:Write>(&mutself,mutwrite:W,size:u16,opcode:u32,)->std::io::Result<()> {letbuf=self.encrypt_client_header(size,opcode);write.write_all(&buf)?;Ok(())}", "fnis_pair_of(&self,other:&DecrypterHalf)->bool {self.session_key==other.session_key}", "fnnew(session_key:[u8;SESSION_KEY_LENGTHasusize])->Self {Self{session_key,index:0,previous_value:0,}}", "fnunsplit(self,decrypter:DecrypterHalf)->Result<HeaderCrypto,UnsplitCryptoError> {if!self.is_pair_of(&decrypter){returnErr(UnsplitCryptoError{});}Ok(HeaderCrypto{decrypt:decrypter,encrypt:self,})}", "fndecrypt(&mutself,data:&mut[u8]) {decrypt(data,&self.session_key,&mutself.index,&mutself.previous_value,);}", "fnread_and_decrypt_server_header<R:Read>(&mutself,mutreader:R,)->std::io::Result<ServerHeader> {letmutbuf=[0_u8;SERVER_HEADER_LENGTHasusize];reader.read_exact(&mutbuf)?;Ok(self.decrypt_server_header(buf))}", "fnread_and_decrypt_client_header<R:Read>(&mutself,mutreader:R,)->std::io::Result<ClientHeader> {letmutbuf=[0_u8;CLIENT_HEADER_LENGTHasusize];reader.read_exact(&mutbuf)?;Ok(self.decrypt_client_header(buf))}", "fndecrypt_server_header(&mutself,mutdata:[u8;SERVER_HEADER_LENGTHasusize],)->ServerHeader {self.decrypt(&mutdata);ServerHeader::from_array(data)}", "fndecrypt_client_header(&mutself,mutdata:[u8;CLIENT_HEADER_LENGTHasusize],)->ClientHeader {self.decrypt(&mutdata);ClientHeader::from_array(data)}", "fnis_pair_of(&self,other:&EncrypterHalf)->bool {other.is_pair_of(self)}", "fnnew(session_key:[u8;SESSION_KEY_LENGTHasusize])->Self {Self{session_key,index:0,previous_value:0,}}"]]
 
 theorem glueVanilla_ok : Gen.glueVanilla = expected_glueVanilla := by decide +kernel
 
